@@ -152,6 +152,132 @@ func shardCase(c *core.Ctx, r *rand.Rand, i int) {
 		}
 		opGdf(c, shard, k, iv, qs, qe, ts)
 	}
+	boundaryQueries(c, r, shard, k, iv, ts, 6)
+}
+
+// boundaryQueries: boundary-directed range lookups over the written timestamps ts: point ranges
+// (at a written timestamp, at a family's first / last millisecond, one millisecond after a family),
+// ranges ending exactly on a family start / family end / one before a family start, a two-millisecond
+// range across a segment boundary, and the storage-slot range a planner would hand down.
+func boundaryQueries(c *core.Ctx, r *rand.Rand, shard tsdb.Shard, k calcT, iv int64, ts []int64, n int) {
+	for j := 0; j < n; j++ {
+		t := ts[r.Intn(len(ts))]
+		fs := k.calc.CalcFamilyTime(t)
+		fe := k.calc.CalcFamilyEndTime(fs)
+		back := r.Int63n(3 * (fe - fs + 1))
+		var qs, qe int64
+		switch r.Intn(9) {
+		case 0:
+			qs, qe = t, t
+		case 1:
+			qs, qe = fs, fs
+		case 2:
+			qs, qe = fe, fe
+		case 3:
+			qs, qe = fe+1, fe+1
+		case 4:
+			qs, qe = fs-back, fs
+		case 5:
+			qs, qe = fs-back, fe
+		case 6:
+			qs, qe = fs-back, fs-1
+		case 7:
+			sg := k.calc.CalcSegmentTime(t)
+			qs, qe = sg-1, sg
+		default: // one storage slot, as the planner truncates a short window
+			qs = t / iv * iv
+			qe = qs
+		}
+		if qs < 2*day || qe < qs || qe >= windowEnd {
+			continue
+		}
+		opGdf(c, shard, k, iv, qs, qe, ts)
+	}
+}
+
+// zoneShardCase: the write path and the range lookup of a real shard with time.Local = a
+// fixed-offset zone (mostly zones whose offset is not a whole number of hours): the families the
+// shard creates contain their timestamps, and Shard.GetDataFamilies returns exactly the existing
+// families intersecting the range (model: getDataFamiliesZ, Props.C13.zone_get_data_families_exact).
+func zoneShardCase(c *core.Ctx, r *rand.Rand) {
+	z := zones[[]int{1, 2, 7, 8, 9}[r.Intn(5)]]
+	if r.Intn(4) == 0 {
+		z = zones[r.Intn(len(zones))]
+	}
+	withZone(c, z, func(_ *time.Location) {
+		dir, err := os.MkdirTemp("", "lvh-c13-*")
+		if err != nil {
+			c.Note("mkdtemp failed: " + err.Error())
+			return
+		}
+		defer os.RemoveAll(dir)
+		cfg := config.NewDefaultStorageBase()
+		cfg.TSDB.Dir = dir
+		config.SetGlobalStorageConfig(cfg)
+		engine, err := tsdb.NewEngine()
+		if err != nil {
+			c.Note("engine: " + err.Error())
+			return
+		}
+		defer engine.Close()
+		k := calcs[r.Intn(len(calcs))]
+		iv := k.intervals[r.Intn(len(k.intervals))]
+		opt := &option.DatabaseOption{Intervals: option.Intervals{{Interval: timeutil.Interval(iv), Retention: timeutil.Interval(400 * 365 * day)}}}
+		if err := engine.CreateShards("db", opt, models.ShardID(1)); err != nil {
+			c.Note("create shard: " + err.Error())
+			return
+		}
+		shard, ok := engine.GetShard("db", models.ShardID(1))
+		if !ok {
+			c.Note("shard not found")
+			return
+		}
+		c.NonTrivial()
+		c.Branch("zone-shard/" + k.name + "@zone" + zoneTag)
+		anchor := randTimestamp(r)
+		if r.Intn(2) == 0 { // near a LOCAL day / month boundary of the zone
+			anchor = k.calc.CalcSegmentTime(anchor) + int64(r.Intn(3)) - 1
+		}
+		span := map[string]int64{"day": 3 * hour, "month": 3 * day, "year": 70 * day}[k.name]
+		if r.Intn(3) == 0 {
+			span *= 12
+		}
+		var ts []int64
+		for j := 0; j < 5; j++ {
+			t := anchor + r.Int63n(2*span) - span
+			if t < 3*day {
+				t = 3*day + r.Int63n(span)
+			}
+			if t >= windowEnd {
+				t = windowEnd - 1 - r.Int63n(span)
+			}
+			f, err := shard.GetOrCrateDataFamily(t)
+			if err != nil {
+				c.Fail("shard-family-error/"+k.name+"@zone"+zoneTag, fmt.Sprintf("GetOrCrateDataFamily(%d) failed: %v", t, err))
+				continue
+			}
+			tr := f.TimeRange()
+			if !(tr.Start <= t && t <= tr.End) {
+				c.Fail("family-contains/"+k.name+"@zone"+zoneTag, fmt.Sprintf("shard: t=%d family=[%d,%d]", t, tr.Start, tr.End))
+			}
+			if tr.Start != k.calc.CalcFamilyTime(t) || tr.End != k.calc.CalcFamilyEndTime(tr.Start) {
+				c.Fail("shard-family-time/"+k.name+"@zone"+zoneTag, fmt.Sprintf("shard: t=%d family=[%d,%d], calculator says [%d,%d]", t, tr.Start, tr.End, k.calc.CalcFamilyTime(t), k.calc.CalcFamilyEndTime(k.calc.CalcFamilyTime(t))))
+			}
+			ts = append(ts, t)
+		}
+		if len(ts) == 0 {
+			return
+		}
+		boundaryQueries(c, r, shard, k, iv, ts, 10)
+		for j := 0; j < 4; j++ {
+			qs := ts[r.Intn(len(ts))] - r.Int63n(span)
+			qe := ts[r.Intn(len(ts))] + r.Int63n(span)
+			if qs < 2*day || qe < qs || qe >= windowEnd {
+				continue
+			}
+			opGdf(c, shard, k, iv, qs, qe, ts)
+		}
+	})
 }
 
 // opGdf runs Shard.GetDataFamilies(type, [qs,qe]) on the real shard whose existing families are
@@ -161,6 +287,20 @@ func shardCase(c *core.Ctx, r *rand.Rand, i int) {
 func opGdf(c *core.Ctx, shard tsdb.Shard, k calcT, iv, qs, qe int64, ts []int64) []int64 {
 	var starts []int64
 	op := fmt.Sprintf("gdf %s %d %d | %s", k.name, qs, qe, joinInts(ts))
+	k0 := k
+	if zoneTag != "" { // same statement with time.Local = a fixed-offset zone: op `gdfz`, keys get the zone suffix
+		op = fmt.Sprintf("gdfz %s %s %d %d | %s", zoneTag, k.name, qs, qe, joinInts(ts))
+		k.name = k.name + "@zone" + zoneTag
+	}
+	if qs == qe {
+		c.Branch("gdf/point-range/" + k0.name)
+	}
+	if qe == k.calc.CalcFamilyTime(qe) {
+		c.Branch("gdf/range-ends-on-family-start/" + k0.name)
+	}
+	if qe == k.calc.CalcFamilyEndTime(k.calc.CalcFamilyTime(qe)) {
+		c.Branch("gdf/range-ends-on-family-end/" + k0.name)
+	}
 	guarded(c, op, false, func() string {
 		fams := shard.GetDataFamilies(timeutil.Interval(iv).Type(), timeutil.TimeRange{Start: qs, End: qe})
 		sel := map[int64]bool{}
